@@ -17,11 +17,12 @@ Theorem at_most_one_disconnect_per_connection :
 Proof. exact one_disconnect_proof. Qed.
 Print Assumptions at_most_one_disconnect_per_connection.
 
-(* a disconnected object is reusable: a new connect is accepted as soon as a candidate answers *)
+(* a disconnected object is reusable: a new connect is accepted as soon as a candidate of the list that
+   the connect call builds answers *)
 Theorem disconnected_object_is_reusable :
   forall ops now k r,
     let s := fst (run init_state ops) in
-    st s = Disconnected -> jid_set s = true -> snd (sock_connect (cands s)) = Some (k, r) ->
+    st s = Disconnected -> jid_set s = true -> snd (sock_connect (next_cands s)) = Some (k, r) ->
     snd (connect_client now s) = XMPP_EOK /\ st (fst (fst (connect_client now s))) = Connecting.
 Proof. exact reusable_proof. Qed.
 Print Assumptions disconnected_object_is_reusable.
